@@ -95,8 +95,17 @@ def main(argv):
     # longest first
     names.sort(key=lambda n: -props.JOBS[n].timeout)
     results = {}
+    budget = MemBudget(int(os.environ.get('VERIF_MEM_GB', '44')))
+
+    def guarded(job, *args):
+        need = min(budget.total, job.mem_est * max(1, len(job.solvers)))
+        budget.acquire(need)
+        try:
+            return run_job(job, *args)
+        finally:
+            budget.release(need)
     with ThreadPoolExecutor(max_workers=a.workers) as ex:
-        futs = {n: ex.submit(run_job, props.JOBS[n], os.path.join(work, n), a.keep,
+        futs = {n: ex.submit(guarded, props.JOBS[n], os.path.join(work, n), a.keep,
                              ['-I' + work]) for n in names}
         for n, f in futs.items():
             try:
@@ -194,6 +203,24 @@ def main(argv):
         return 2
     print('OK property=%s tier=%s jobs=%d obligations=%d discharged=%d wall=%.0fs' % (pid, a.tier, len(names), total_ob, total_ok, wall))
     return 0
+
+
+class MemBudget:
+    """jobs declare an estimated peak memory (GB per solver process); the sum of running jobs stays within the budget"""
+    def __init__(self, total):
+        import threading
+        self.total = total; self.free = total; self.cv = threading.Condition()
+
+    def acquire(self, n):
+        with self.cv:
+            while self.free < n:
+                self.cv.wait()
+            self.free -= n
+
+    def release(self, n):
+        with self.cv:
+            self.free += n
+            self.cv.notify_all()
 
 
 def match_known(known, pid, jn, o):
